@@ -42,6 +42,7 @@ def classes():
             self.stream = []      # notifications and handler executions
             self.arm = None       # (where, command) issued from the run thread
             self.arm_out = None
+            self.busy = False
             self.sim = None
             self.model = None
             self.rep = None
@@ -53,6 +54,17 @@ def classes():
                 if cmd[0] == "raise":
                     self.stream.append(("ARMED", where, cmd, "raised"))
                     raise RuntimeError("injected handler fault")
+                if cmd[0] == "sleep":
+                    # a handler that takes (virtual) time: the run is in
+                    # progress while the driver issues its next command
+                    self.busy = True
+                    # (a timed wait: it ends only once no other thread
+                    # can move, so whatever the driver does next is done
+                    # while this handler is still executing)
+                    coopsched.CoopEvent().wait(cmd[1])
+                    self.busy = False
+                    self.stream.append(("ARMED", where, cmd, "slept"))
+                    return
                 self.arm_out = issue_raw(self, cmd)
                 self.stream.append(("ARMED", where, cmd, self.arm_out))
 
@@ -175,7 +187,7 @@ def command(w, s, cmd, arm=None):
 
 
 # ---------------------------------------------------------------- monitor
-def monitor(stream, warmup=WARMUP):
+def monitor(stream, warmup=WARMUP, listeners_stay=True):
     """stream rules of the property, evaluated on the notification stream of
     ONE replication (from initialize on); returns list of broken rules"""
     bad = []
@@ -200,6 +212,7 @@ def monitor(stream, warmup=WARMUP):
     # TIME_CHANGED: non-decreasing, equal to the time of the next event run
     last = None
     pending_tc = None
+    prev_exec = 0.0          # the replication starts at 0
     for x in stream:
         if x[0] == "TIME_CHANGED":
             if last is not None and x[1] < last:
@@ -213,7 +226,14 @@ def monitor(stream, warmup=WARMUP):
             if pending_tc is not None and x[1] != pending_tc:
                 bad.append(("event executed at another time than announced",
                             pending_tc, x))
+            # (not for a warm-up notified by end_replication(), nor when a
+            # concurrent cleanup() takes the listeners away)
+            if pending_tc is None and x[1] != prev_exec and \
+                    x[0] == "EXEC" and listeners_stay:
+                bad.append(("event at a new time executed without a "
+                            "TIME_CHANGED notification", x))
             pending_tc = None
+            prev_exec = x[1]
     # executed events never go back in time
     ex = [x[1] for x in stream if x[0] == "EXEC"]
     if any(a > b for a, b in zip(ex, ex[1:])):
